@@ -1038,9 +1038,12 @@ async fn run_inner(sc: Scenario) -> Outcome {
     let ea = end_at.clone();
     let cpeer = peer.clone();
     let conn_task = tokio::task::spawn_local(async move {
-        let r = conn.await;
+        let r = util::PollBudget::new(conn, util::SPIN_LIMIT).await;
         *ea.borrow_mut() = Some(cpeer.now_ms());
-        r.map_err(|e| format!("{e}"))
+        match r {
+            Ok(r) => r.map_err(|e| format!("{e}")),
+            Err(spin) => Err(spin),
+        }
     });
     let peer_done = Rc::new(RefCell::new(None::<u64>));
     let pd = peer_done.clone();
@@ -1063,6 +1066,8 @@ async fn run_inner(sc: Scenario) -> Outcome {
     let res = tokio::time::timeout(Duration::from_millis(deadline_ms), conn_task).await;
     let end = match res {
         Ok(Ok(Ok(()))) => ConnEnd::Ok,
+        // a task spinning at one virtual instant never completes either
+        Ok(Ok(Err(e))) if e.starts_with("SPIN:") => ConnEnd::Stalled,
         Ok(Ok(Err(e))) => ConnEnd::Err(e),
         Ok(Err(join_err)) => {
             if join_err.is_panic() {
